@@ -44,6 +44,8 @@ type End struct {
 	peerGone bool     // peer closed (stream: EOF after q drained)
 	notify   chan struct{}
 	rdl      time.Time
+	wdl      time.Time     // write deadline (used only by bounded stream links)
+	space    chan struct{} // signalled when this end's queue shrinks (bounded stream links)
 }
 
 // Link is a pair of ends.
@@ -51,12 +53,13 @@ type Link struct {
 	A, B *End
 	mu   sync.Mutex
 	tap  Tap
+	cap  int // stream links: max bytes queued at a receiving end (0 = unbounded); see SetCapacity
 }
 
 func newLink(nameA, nameB string, stream bool) *Link {
 	l := &Link{}
-	l.A = &End{Name: nameA, link: l, stream: stream, notify: make(chan struct{}, 1)}
-	l.B = &End{Name: nameB, link: l, stream: stream, notify: make(chan struct{}, 1)}
+	l.A = &End{Name: nameA, link: l, stream: stream, notify: make(chan struct{}, 1), space: make(chan struct{}, 1)}
+	l.B = &End{Name: nameB, link: l, stream: stream, notify: make(chan struct{}, 1), space: make(chan struct{}, 1)}
 	l.A.peer, l.B.peer = l.B, l.A
 	return l
 }
@@ -67,6 +70,19 @@ func NewPacketLink(nameA, nameB string) *Link { return newLink(nameA, nameB, fal
 
 // NewStreamLink returns a link with byte-stream semantics and EOF on close (TCP-like).
 func NewStreamLink(nameA, nameB string) *Link { return newLink(nameA, nameB, true) }
+
+// SetCapacity bounds the bytes a stream link queues at a receiving end: like a
+// TCP connection whose peer does not read, Write then blocks until the reader
+// drains the queue or the write deadline expires (timeout error).
+func (l *Link) SetCapacity(n int) { l.mu.Lock(); l.cap = n; l.mu.Unlock() }
+
+func (e *End) queued() int {
+	n := 0
+	for _, d := range e.q {
+		n += len(d)
+	}
+	return n
+}
 
 // SetTap installs the capture/fault function.
 func (l *Link) SetTap(t Tap) { l.mu.Lock(); l.tap = t; l.mu.Unlock() }
@@ -107,6 +123,10 @@ func (e *End) Read(p []byte) (int, error) {
 			if len(e.q) > 0 {
 				e.wake()
 			}
+			select {
+			case e.space <- struct{}{}:
+			default:
+			}
 			e.mu.Unlock()
 			return n, nil
 		}
@@ -143,6 +163,43 @@ func (e *End) Write(p []byte) (int, error) {
 	}
 	b := append([]byte(nil), p...)
 	l := e.link
+	// bounded stream link: wait for room at the receiving end
+	for e.stream {
+		l.mu.Lock()
+		capacity := l.cap
+		l.mu.Unlock()
+		if capacity <= 0 {
+			break
+		}
+		peer := e.peer
+		peer.mu.Lock()
+		full := !peer.closed && peer.queued() >= capacity
+		peer.mu.Unlock()
+		if !full {
+			break
+		}
+		e.mu.Lock()
+		dl, closed := e.wdl, e.closed
+		e.mu.Unlock()
+		if closed {
+			return 0, net.ErrClosed
+		}
+		if dl.IsZero() {
+			<-peer.space
+			continue
+		}
+		d := time.Until(dl)
+		if d <= 0 {
+			return 0, ErrTimeout
+		}
+		t := time.NewTimer(d)
+		select {
+		case <-peer.space:
+			t.Stop()
+		case <-t.C:
+			return 0, ErrTimeout
+		}
+	}
 	l.mu.Lock()
 	act := Pass
 	if l.tap != nil {
@@ -187,6 +244,10 @@ func (e *End) Close() error {
 	}
 	e.closed = true
 	e.wake()
+	select {
+	case e.space <- struct{}{}:
+	default:
+	}
 	e.mu.Unlock()
 	l := e.link
 	l.mu.Lock()
@@ -227,6 +288,7 @@ func (e *End) SetWriteDeadline(t time.Time) error {
 	if e.closed {
 		return net.ErrClosed
 	}
+	e.wdl = t
 	return nil
 }
 
